@@ -147,6 +147,20 @@ def register(ex):
     def x_memset(st, a, nm): mem_set(ex, st, a[0], a[1], a[2]); return a[0]
     X['memset'] = x_memset
 
+    # wide-character copies (std::char_traits<wchar_t>): 4-byte units
+    def x_wmemcpy(st, a, nm):
+        n = conc_len(ex, st, a[2], nm)
+        mem_copy(ex, st, a[0], a[1], 4 * n, nm != 'wmemcpy'); return a[0]
+    X['wmemcpy'] = x_wmemcpy; X['wmemmove'] = x_wmemcpy
+
+    def x_wmemset(st, a, nm):
+        n = conc_len(ex, st, a[2], 'wmemset')
+        if n:
+            do, doff = ex.obj_of(st, a[0], 4 * n, 'wmemset', True)
+            do.cells[doff:doff + 4 * n] = ex.explode(IntT(32), a[1], 4) * n
+        return a[0]
+    X['wmemset'] = x_wmemset
+
     def x_memcmp(st, a, nm):
         n = conc_len(ex, st, a[2], 'memcmp')
         if n == 0: return 0
@@ -238,6 +252,12 @@ def register(ex):
         except (Inconclusive, PathEnd): msg = '?'
         ex.ub(st, 'library assertion failed: ' + msg)
     X['__assert_fail'] = x_assert_fail; X['_ZSt21__glibcxx_assert_failPKciS0_S0_'] = x_assert_fail
+
+    # std exception classes of libstdc++.so: the message is never inspected (a throw ends the path)
+    for cls in ('13runtime_error', '11logic_error', '12out_of_range', '16invalid_argument', '12length_error', '12domain_error', '11range_error', '14overflow_error', '15underflow_error'):
+        for sig in ('PKc', 'RKNSt7__cxx1112basic_stringIcSt11char_traitsIcESaIcEEE'):
+            for c in ('C1', 'C2'): X['_ZNSt%s%sE%s' % (cls, c, sig)] = lambda st, a, nm: None
+        for d in ('D0', 'D1', 'D2'): X['_ZNSt%s%sEv' % (cls, d)] = lambda st, a, nm: None
 
     X['__cxa_begin_catch'] = lambda st, a, nm: (_ for _ in ()).throw(Inconclusive('catch handler reached'))
     X['__cxa_end_catch'] = lambda st, a, nm: None
